@@ -9,7 +9,7 @@ From Coq Require Import PArith List Bool Arith FMapPositive.
 From C06 Require Import IR.
 Import ListNotations.
 
-Inductive aval := AUninit | ANull (u : bool) | AObj (k : nat) (b : bool) | AMaybe (k : nat) (b u : bool) | ADead.
+Inductive aval := AUninit | ANull (u : bool) | AObj (k : nat) (b : bor) | AMaybe (k : nat) (b : bor) (u : bool) | ADead.
 
 Definition astate := PositiveMap.t aval.
 Definition aget (a : astate) (v : val) : aval :=
@@ -19,6 +19,15 @@ Definition aset (v : val) (x : aval) (a : astate) : astate := PositiveMap.add v 
 Definition aowned (x : aval) : nat := match x with AObj k _ | AMaybe k _ _ => k | _ => 0 end.
 
 Definition ble (b1 b2 : bool) : bool := implb b1 b2.
+(* borrow justification: [weak] promises no more than [strong] *)
+Definition bor_leb (weak strong : bor) : bool :=
+  match weak, strong with
+  | BNone, _ => true
+  | BAlways, BAlways => true
+  | BFrom w, BAlways => true
+  | BFrom w, BFrom w' => Pos.eqb w w'
+  | _, _ => false
+  end.
 
 (* inclusion of concretisations *)
 Definition ale (x y : aval) : bool :=
@@ -26,9 +35,9 @@ Definition ale (x y : aval) : bool :=
   | AUninit, AUninit => true
   | ANull u, ANull u' => ble u u'
   | ANull u, AMaybe _ _ u' => ble u u'
-  | AObj k b, AObj k' b' => Nat.eqb k k' && ble b' b
-  | AObj k b, AMaybe k' b' _ => Nat.eqb k k' && ble b' b
-  | AMaybe k b u, AMaybe k' b' u' => Nat.eqb k k' && ble b' b && ble u u'
+  | AObj k b, AObj k' b' => Nat.eqb k k' && bor_leb b' b
+  | AObj k b, AMaybe k' b' _ => Nat.eqb k k' && bor_leb b' b
+  | AMaybe k b u, AMaybe k' b' u' => Nat.eqb k k' && bor_leb b' b && ble u u'
   | _, ADead => Nat.eqb (aowned x) 0
   | _, _ => false
   end.
@@ -37,12 +46,12 @@ Definition ale_state (a1 a2 : astate) : bool :=
   forallb (fun p => ale (snd p) (aget a2 (fst p))) (PositiveMap.elements a1) &&
   forallb (fun p => ale (aget a1 (fst p)) (snd p)) (PositiveMap.elements a2).
 
-Definition ausable (x : aval) : bool := match x with AObj k b => (0 <? k) || b | _ => false end.
+Definition ausable (x : aval) : bool := match x with AObj k b => (0 <? k) || valid b | _ => false end.
 Definition areadable (x : aval) : bool :=
   match x with
-  | AObj k b => (0 <? k) || b
+  | AObj k b => (0 <? k) || valid b
   | ANull u => negb u
-  | AMaybe k b u => ((0 <? k) || b) && negb u
+  | AMaybe k b u => ((0 <? k) || valid b) && negb u
   | _ => false
   end.
 
@@ -51,12 +60,24 @@ Definition areadable (x : aval) : bool :=
    10 out of fuel *)
 Definition err := (nat * val)%type.
 
-Definition arelease (strict : bool) (v : val) (a : astate) : astate + err :=
+Definition aretarget (w : val) (nb : bor) (a : astate) : astate :=
+  PositiveMap.map (fun x => match x with
+                            | AObj k (BFrom w') => if Pos.eqb w' w then AObj k nb else x
+                            | AMaybe k (BFrom w') u => if Pos.eqb w' w then AMaybe k nb u else x
+                            | _ => x
+                            end) a.
+Definition aroot (a : astate) (w : val) : bor :=
+  match aget a w with AObj (S _) _ => BFrom w | AObj 0 b => b | _ => BNone end.
+
+Definition arelease (strict : bool) (v : val) (succ : bor) (a : astate) : astate + err :=
   match aget a v with
-  | AObj (S k) b => inl (aset v (AObj k b) a)
+  | AObj (S k) b => let a1 := aset v (AObj k b) a in
+                    inl (match k with 0 => aretarget v (inherit b succ) a1 | _ => a1 end)
   | AObj 0 _ => inr (2, v)
   | ANull _ => if strict then inr (3, v) else inl a
-  | AMaybe (S k) b u => if strict then inr (3, v) else inl (aset v (AMaybe k b u) a)
+  | AMaybe (S k) b u => if strict then inr (3, v)
+                        else let a1 := aset v (AMaybe k b u) a in
+                             inl (match k with 0 => aretarget v BNone a1 | _ => a1 end)
   | AMaybe 0 _ _ => if strict then inr (3, v) else inr (2, v)
   | _ => inr (3, v)
   end.
@@ -64,32 +85,38 @@ Definition arelease (strict : bool) (v : val) (a : astate) : astate + err :=
 Definition amicro (m : micro) (a : astate) : astate + err :=
   match m with
   | MRead v => if areadable (aget a v) then inl a else inr (1, v)
-  | MRelease v => arelease false v a
-  | MDec v x => arelease (negb x) v a
+  | MTouch v => match aget a v with
+                | AObj _ _ | ANull false | AMaybe _ _ false => inl a
+                | _ => inr (1, v)
+                end
+  | MRelease v => arelease false v BNone a
+  | MForget v => arelease false v BAlways a
+  | MDec v x => arelease (negb x) v BNone a
   | MInc v => match aget a v with
-              | AObj k b => if (0 <? k) || b then inl (aset v (AObj (S k) b) a) else inr (4, v)
+              | AObj k b => if (0 <? k) || valid b then inl (aset v (AObj (S k) b) a) else inr (4, v)
               | _ => inr (4, v)
               end
   | MAssume v => match aget a v with
                  | AMaybe k b _ => inl (aset v (AObj k b) a)
                  | _ => inl a
                  end
-  | MDef d own maynull =>
+  | MDef d own maynull ow =>
       if Nat.eqb (aowned (aget a d)) 0 then
-        inl (aset d (if own then (if maynull then AMaybe 1 false false else AObj 1 false)
-                     else (if maynull then AMaybe 0 true false else AObj 0 true)) a)
+        let b := match ow with Some w => aroot a w | None => BAlways end in
+        inl (aset d (if own then (if maynull then AMaybe 1 BNone false else AObj 1 BNone)
+                     else (if maynull then AMaybe 0 b false else AObj 0 b)) a)
       else inr (5, d)
   | MDefNull d => if Nat.eqb (aowned (aget a d)) 0 then inl (aset d (ANull false) a) else inr (5, d)
   | MMove d sv mv own undef =>
       let x := aget a sv in
       if areadable x then
-        match (if mv then arelease false sv a else inl a) with
+        match (if mv then arelease false sv (BFrom d) a else inl a) with
         | inl a1 =>
             if Nat.eqb (aowned (aget a1 d)) 0 then
               inl (aset d (match x with
                            | ANull u => ANull (u || undef)
-                           | AMaybe _ _ u => if own then AMaybe 1 false (u || undef) else AMaybe 0 true (u || undef)
-                           | _ => if own then AObj 1 false else AObj 0 true
+                           | AMaybe _ _ u => if own then AMaybe 1 BNone (u || undef) else AMaybe 0 BAlways (u || undef)
+                           | _ => if own then AObj 1 BNone else AObj 0 BAlways
                            end) a1)
             else inr (5, d)
         | inr e => inr e
@@ -122,7 +149,7 @@ Definition aterm (t : term) (a : astate) : edges + err :=
   | TReturn None _ => match aleak_free a with None => no_edges | Some w => inr (6, w) end
   | TReturn (Some v) rc =>
       if areadable (aget a v) then
-        match (if rc then arelease false v a else inl a) with
+        match (if rc then arelease false v BNone a else inl a) with
         | inl a' => match aleak_free a' with None => no_edges | Some w => inr (6, w) end
         | inr e => inr e
         end
@@ -151,7 +178,7 @@ Definition block_ok (ann : annot) (ms : list micro) (t : term) (a : astate) : bo
   match aflow ms t 0 a with inl es => forallb (edge_ok ann) es | inr _ => false end.
 
 Definition init_astate (args : list (val * bool)) : astate :=
-  fold_right (fun (p : val * bool) (a : astate) => aset (fst p) (if snd p then AMaybe 0 true false else AObj 0 true) a)
+  fold_right (fun (p : val * bool) (a : astate) => aset (fst p) (if snd p then AMaybe 0 BAlways false else AObj 0 BAlways) a)
              (PositiveMap.empty aval) args.
 
 Definition check_ann (f : func) (ann : annot) : bool :=
@@ -162,16 +189,18 @@ Definition check_ann (f : func) (ann : annot) : bool :=
                     end) (PositiveMap.elements ann).
 
 (* ---- inference (untrusted: its result is re-checked by check_ann) --------------------------------- *)
+Definition bor_meet (b b' : bor) : bor :=
+  if bor_leb b b' then b else if bor_leb b' b then b' else BNone.
 Definition ajoin (x y : aval) : option aval :=
   if ale x y then Some y else if ale y x then Some x else
   match x, y with
   | ANull u, ANull u' => Some (ANull (u || u'))
-  | AObj k b, AObj k' b' => if Nat.eqb k k' then Some (AObj k (b && b')) else None
+  | AObj k b, AObj k' b' => if Nat.eqb k k' then Some (AObj k (bor_meet b b')) else None
   | AObj k b, ANull u | ANull u, AObj k b => Some (AMaybe k b u)
   | AMaybe k b u, ANull u' | ANull u', AMaybe k b u => Some (AMaybe k b (u || u'))
   | AMaybe k b u, AObj k' b' | AObj k' b', AMaybe k b u =>
-      if Nat.eqb k k' then Some (AMaybe k (b && b') u) else None
-  | AMaybe k b u, AMaybe k' b' u' => if Nat.eqb k k' then Some (AMaybe k (b && b') (u || u')) else None
+      if Nat.eqb k k' then Some (AMaybe k (bor_meet b b') u) else None
+  | AMaybe k b u, AMaybe k' b' u' => if Nat.eqb k k' then Some (AMaybe k (bor_meet b b') (u || u')) else None
   | _, _ => if Nat.eqb (aowned x) 0 && Nat.eqb (aowned y) 0 then Some ADead else None
   end.
 
